@@ -6,7 +6,7 @@ import itertools
 
 import numpy as np
 
-from .. import gen_core, refsel, snapshot
+from .. import gen_core, gen_ioapi, refsel, snapshot
 from ..cli import digest
 
 PROP = 'C02'
@@ -27,7 +27,8 @@ ASSUMPTIONS = [
     'names and values are',
 ]
 HOOKS = ['sliceDimensions.return', 'slice_dim.return', 'oracle.compare']
-FACETS_REQUIRED = {t: ['form:method', 'form:slice_dim']
+FACETS_REQUIRED = {t: ['form:method', 'form:slice_dim', 'file:ioapi',
+                       'file:core']
                    for t in ('quick', 'thorough')}
 MIN_DISTINCT = {'quick': 500, 'thorough': 5000}
 N = {'quick': 3000, 'thorough': 60000}
@@ -76,8 +77,18 @@ def gen(rng, idx, tier, seed):
         sel = [[dn[0], MENU[a]], [dn[1], MENU[b]], [dn[2], MENU[c]]]
         # lists of unequal length are outside the documented domain
         return {'file': fs, 'sel': sel, 'menu': True}
-    fs = gen_core.gen_filespec(rng, allow_char=False)
-    dims = fs['dims']
+    ioapi = idx % 6 == 5
+    if ioapi:
+        isp = gen_ioapi.gen_spec(rng, maxn=5)
+        fs = {'ioapi': isp}
+        dims = [['TSTEP', isp['nt'], True], ['LAY', isp['nz'], False]]
+        if isp['kind'] == 'grid':
+            dims += [['ROW', isp['ny'], False], ['COL', isp['nx'], False]]
+        else:
+            dims += [['PERIM', 2 * (isp['ny'] + isp['nx']) + 4, False]]
+    else:
+        fs = gen_core.gen_filespec(rng, allow_char=False)
+        dims = fs['dims']
     nd = len(dims)
     nsel = int(rng.integers(1, nd + 1))
     chosen = [dims[i] for i in rng.permutation(nd)[:nsel]]
@@ -104,11 +115,18 @@ def gen(rng, idx, tier, seed):
                     # a second list of any length is the zipped form; keep the
                     # call in-domain by making it a slice instead
                     s = refsel.gen_selector(rng, ln, kinds=('s',))
+        if ioapi and 's' in s:
+            # IOAPI files: time windows run forward with unit stride and no
+            # selection is empty (the result stays an IOAPI file)
+            if name == 'TSTEP' and s['s'][2] not in (None, 1):
+                s['s'][2] = None
+            if refsel.sel_len(s, ln) == 0:
+                s = {'s': [None, None, None]}
         sel.append([name, s])
     order = rng.permutation(len(sel))
     sel = [sel[i] for i in order]
     spec = {'file': fs, 'sel': sel}
-    if idx % 4 == 3 and not any('l' in s_ for _, s_ in sel):
+    if idx % 4 == 3 and not ioapi and not any('l' in s_ for _, s_ in sel):
         # the command-line string form: one slice_dim call per dimension
         spec['form'] = 'slice_dim'
     return spec
@@ -122,7 +140,9 @@ def slice_string(d, s):
 
 
 def run(spec, res):
-    f = gen_core.build(spec['file'])
+    ioapi = 'ioapi' in spec['file']
+    f = gen_ioapi.build(spec['file']['ioapi']) if ioapi else \
+        gen_core.build(spec['file'])
     before = snapshot.snap_file(f)
     seld = {d: s for d, s in spec['sel']}
     kw = {d: refsel.dec_sel(s) for d, s in spec['sel']}
@@ -130,7 +150,7 @@ def run(spec, res):
     lens = {len(seld[d]['l']) for d in file_lists}
     in_domain = len(lens) <= 1 or len(file_lists) <= 1
     kinds = tuple(sorted(refsel.kind(s) for s in seld.values()))
-    facet = ['kinds:' + ''.join(kinds)]
+    facet = ['kinds:' + ''.join(kinds), 'file:ioapi' if ioapi else 'file:core']
     if len(file_lists) > 1:
         facet.append('zipped')
     form = spec.get('form', 'method')
@@ -165,8 +185,12 @@ def run(spec, res):
     problems = []
     # dimensions
     for d, (ln, unl) in before.dims.items():
+        if ioapi and d == 'VAR':
+            continue   # variable-list bookkeeping of the IOAPI class (C10)
         want = refsel.sel_len(seld[d], ln) if d in seld else ln
         if d not in out.dimensions:
+            if ioapi and len(file_lists) > 1 and d in file_lists:
+                continue   # replaced by the new point dimension
             problems.append('dimension %s missing from result' % d)
         elif len(out.dimensions[d]) != want:
             problems.append('dimension %s has length %d, expected %d'
@@ -184,6 +208,21 @@ def run(spec, res):
             nontrivial = True
         got = snapshot.snap_var(out.variables[name])
         res.hook('oracle.compare')
+        if ioapi and name == 'TFLAG':
+            # the IOAPI class rebuilds TFLAG's VAR axis from its variable
+            # list (C10); what slicing owes is the selected time stamps.  A
+            # pointwise selection dissolves the grid and is not judged here.
+            if len(file_lists) > 1:
+                continue
+            res.facet('tflag-judged')
+            if got.data.ndim != 3 or got.data.shape[1] < 1 or \
+                    got.data.shape[0] != edata.shape[0] or not np.array_equal(
+                        got.data[:, 0, :], edata[:, 0, :]):
+                problems.append('TFLAG: time stamps %s, expected the '
+                                'selected stamps %s' % (
+                                    got.data[:, :1, :].tolist()[:6],
+                                    edata[:, :1, :].tolist()[:6]))
+            continue
         problems += snapshot.check_var(got, name, dims=edims, data=edata,
                                        mask=emask, attrs=vs.attrs,
                                        dtype=vs.dtype)
